@@ -36,11 +36,11 @@ Proof. reflexivity. Qed.
    entry is decoded independently of the others (map_entry_of starts from the zero pair). Decoding of ARBITRARY entry
    sequences (any order, duplicate keys overwrite, unknown fields inside entries) is the reference's by T_dec (C02). *)
 Theorem C11_map_round_trip : forall s progs fuel idx fs un m,
-  gen_all s = GOk progs -> TEnc.wf_schema_enc s = true -> RoundTrip.rt_applies s = true -> nth_error s idx = Some m ->
+  gen_all s = GOk progs -> TEnc.wf_schema_enc s = true -> RoundTrip.rt_applies_at s idx = true -> nth_error s idx = Some m ->
   EncSpec.msg_ok fuel progs idx (Some (fs, un)) = true -> RoundTrip.rt_ok fuel s idx fs un = true ->
   exists data, pico_marshal fuel progs idx (fs, un) = Ok data /\
                pico_unmarshal progs idx data (zero_fields s m, []) = (None, (Norm.norm_fields fuel s idx fs, un)).
-Proof. exact RoundTrip.marshal_unmarshal. Qed.
+Proof. exact RoundTrip.marshal_unmarshal_at. Qed.
 
 Example C11_nonvacuous : entry_payload KInt32 KString (VInt 0, VBytes [97]) = [18; 1; 97] /\ entry_payload KSint32 KBool (VInt (-1), VInt 0) = [8; 1].
 Proof. split; vm_compute; reflexivity. Qed.
